@@ -153,4 +153,5 @@ func genExtra() {
 	genC04()
 	genC09()
 	genC01()
+	genC08()
 }
